@@ -62,16 +62,19 @@ PROPERTIES = {
     },
     "C03": {
         "level": "proof",
+        "verus_units": ["cmp@*"],
         "kani": TFH + _mods("cmp8", ["l0", "l4", "l8"], ["i8_vs_i8", "i8_vs_u8", "u8_vs_u8"]) + CMPX + CMPINT
                 + _mods("cmp8", ["f4"], ["i8_vs_f32", "u8_vs_f32", "i8_vs_f64", "u8_vs_f64"])
                 + ["cmp8::float_derived_ops", "cmp8::i32f0_vs_f32", "float::check_kind_f32", "float::check_kind_f64"],
         "kani_thorough": _mods("cmp8", [l for l in L9 if l not in ("l0", "l4", "l8")], ["i8_vs_i8", "i8_vs_u8", "u8_vs_u8"])
                 + _mods("cmp8", [f for f in F9 if f != "f4"], ["i8_vs_f32", "u8_vs_f32", "i8_vs_f64", "u8_vs_f64"]),
-        "explanation": "to_fixed_helper (all 10 source types, all 507 destination layouts) and to_float_kind (all bit patterns, all layouts) "
+        "explanation": "fixed_cmp_fixed (eq, partial_cmp, lt, le, gt, ge) verified by Verus for all 100 (lhs family, rhs family) pairs with both "
+                       "fractional-bit counts symbolic, i.e. every ordered pair of the 507 layouts, on top of the to_fixed_helper contract; "
+                       "to_fixed_helper (all 10 source types, all 507 destination layouts) and to_float_kind (all bit patterns, all layouts) "
                        "under Kani function contracts; the comparison macro bodies verified on every pair of 8-bit layouts, a sample of "
                        "cross-width pairs, every primitive integer type and f32/f64 against the exact ordering",
-        "bounded_parts": ["fixed_cmp_fixed / fixed_cmp_int / fixed_cmp_float macro bodies: complete for the instantiated type pairs only "
-                          "(all 8-bit pairs + listed cross-width pairs); other width pairs share the macro body but are not instantiated"],
+        "bounded_parts": ["fixed_cmp_int / fixed_cmp_float macro bodies: complete for the instantiated type pairs only (8-bit left-hand sides, "
+                          "every integer type, f32 / f64); fixed_cmp_fixed is proved by Verus for all 100 family pairs with both Frac symbolic"],
     },
     "C04": {
         "level": "proof",
@@ -121,7 +124,7 @@ PROPERTIES = {
     },
     "C11": {
         "level": "proof",
-        "verus_units": ["arith_widen", "arith128", "widediv", "nofrac", "fracops", "round@*", "transc", "leaves"],
+        "verus_units": ["arith_widen", "arith128", "widediv", "nofrac", "fracops", "round@*", "transc", "leaves", "cmp@*"],
         "kani": [{"harness": h, "classes": ["panic"]} for h in
                  _mods("arith8", ["i4f4", "i0f8", "u4f4", "u0f8"], FORMS) + ["arith8::abs_forms_i8"] + TFH
                  + ["float::check_to_f32", "float::check_to_f64", "float::check_kind_f32", "float::check_kind_f64"]
